@@ -90,7 +90,7 @@ def run(tier, seed):
             if p == 'C19':
                 oracle.append({'level': 'emitted crate', 'case': cid, 'message': msg, 'config_and_spec': spec})
         for x in ed:
-            if x and ('serde' in str(x.get('file', '')) or x.get('file') in ('src/lib.rs',)):
+            if x and ((x.get('presence') and x.get('file') == 'src/serde.rs') or x.get('section') != '*') and not x.get('docs_only') and (x.get('file') == 'src/serde.rs' or (x.get('file') == 'src/lib.rs' and x.get('section') == 'mod') or (str(x.get('file', '')).startswith('src/model/') and x.get('section', '').startswith(('struct ', 'enum ', 'type ')))):
                 disagreements.append(dict(x, level='emitted crate'))
     if oracle:
         out.violation('oracle', {'what': 'adapter template (compiled verbatim from codegen_rust/src/serde/*.rs, driven through serde_json) breaks round trip or turns a malformed wire value into a present value',
